@@ -56,7 +56,11 @@ def p3_through_origin(rng):
 def sq_card(rng):
     """SQ cards incl. linear terms with off-origin reference point and cards positive at their centre"""
     c = lambda: rng.choice(G.HALF)  # noqa
-    kind = rng.choice(['ell', 'cyl', 'hyp', 'par', 'par', 'pos'])
+    kind = rng.choice(['ell', 'cyl', 'hyp', 'par', 'par', 'pos', 'lin', 'lin'])
+    if kind == 'lin':
+        # all three linear coefficients and an off-origin reference point: every term of the expansion matters
+        lin = [rng.choice([0.5, -0.25, 0.75, -1.0]) for _ in range(3)]
+        return 'sq', [rng.choice([1., 2.]), rng.choice([1., 3.]), rng.choice([1., 2., 0.])] + lin + [-rng.choice([4., 9.]), c(), c(), c()]
     if kind == 'ell':
         return 'sq', [rng.choice([1., 2.]), rng.choice([1., 3.]), rng.choice([1., 2.]), 0., 0., 0., -rng.choice([4., 9.]), c(), c(), c()]
     if kind == 'cyl':
